@@ -1,8 +1,8 @@
 /-
   DDProps.C16Text — the text layer of `dd.dddmp.load` (model `DD/DddmpText.lean`): which header
   lines the parser REFUSES, which it accepts and IGNORES (`.add` among them: an ADD file is read
-  as a BDD), how the file is cut into header and node lines by SUBSTRING tests (a valid file
-  whose variable is called `y.end` or `y.nodes` is refused), and that a text which parses is
+  as a BDD), how the file is cut into header and node lines (by the START of a line since
+  f9d6f33: a valid file whose variable is called `y.end` or `y.nodes` loads), and that a text which parses is
   loaded as its content — so that the theorems of `DDProps/C16.lean` apply to texts.
 
   The PLY lexer / LALR tables of the real code are tied to `dddmpLex` / `dddmpParseHeaderF` by the
@@ -158,12 +158,14 @@ example : ∃ f, dddmpParseText dddmpChainText.toList = some f ∧ f.WF ∧ f.ad
     simp only [Option.map_some, Option.some.injEq, Prod.mk.injEq, decide_eq_true_eq] at h
     exact ⟨f, rfl, h.1, h.2⟩
 
-/-! ## the substring dispatch: dotted variable names
+/-! ## the line dispatch: dotted variable names (finding F23, repaired in f9d6f33)
 
 `t_NAME` is `[a-zA-Z_][a-zA-Z_@0-9'\.]*`: `y.end` and `y.nodes` are variable names of the
 format (CUDD stores whatever names the application passes; `dd.cudd` passes the names of its
-variables, in which dots are usual).  `_parse_header` and `_parse_body` cut the file with
-`'.nodes' in line` / `'.end' in line`. -/
+variables, in which dots are usual).  `_parse_header` and `_parse_body` used to cut the file with
+`'.nodes' in line` / `'.end' in line`: the node line `2 y.end 1 1 -1` ended the body
+(`AssertionError`), the header line `.orderedvarnames x y.nodes` ended the header (`TypeError`).
+Now they test `line.startswith(..)`. -/
 
 /-- a minimal valid `.varinfo 3` file: `x`, then the variable `y`; root 3 = `ite(x, TRUE, y)` -/
 def dddmpDottedTextM (mode y : String) : String :=
@@ -173,21 +175,52 @@ def dddmpDottedTextM (mode y : String) : String :=
 
 def dddmpDottedText (y : String) : String := dddmpDottedTextM ".mode A" y
 
-/-- with `y` (or `y.e`, `a.b`) the file loads … -/
-example : ((loadDddmpText (dddmpDottedText "y").toList).toOption.map fun m => (m.roots, m.nvars)) =
+/-- the content of that file -/
+def dddmpDottedFile (y : String) : DddmpFile := {
+  varinfo := some 3, nnodes := some 3, nvars := some 2, nsuppvars := some 2,
+  suppvarnames := some [.str "x", .str y], orderedvarnames := some [.str "x", .str y],
+  ids := some [0, 1], permids := some [0, 1], nroots := some 1, rootids := some [3],
+  nodes := [⟨1, .str "T", 1, 0, 0⟩, ⟨2, .str y, 1, 1, -1⟩, ⟨3, .str "x", 0, 1, 2⟩],
+  ver := some ("DDDMP", 2, 0), mode := some "A" }
+
+/-- what such a file says: root 3 is `x ∨ y` -/
+theorem dddmpDotted_meaning (y : String) (hy : y ≠ "x") (hT : y ≠ "T") (α : String → Bool) :
+    evalFormat (dddmpDottedFile y) α 3 = (α "x" || α y) := by
+  have e1 : (DddmpTok.str "x" == DddmpTok.str y) = false := by
+    rw [beq_eq_false_iff_ne]; intro e; cases e; exact hy rfl
+  have e2 : ¬ (DddmpTok.str y = DddmpTok.str "T") := by intro e; cases e; exact hT rfl
+  have e3 : ¬ (DddmpTok.str "x" = DddmpTok.str "T") := by decide
+  simp [evalFormat, dddmpDottedFile, evalNodesF, dddmpNameOf, DddmpTok.show, e1, e2, e3]
+
+/-- C16 (dotted names, after f9d6f33): the valid `.varinfo 3` file whose second variable is
+called `y.end` / `y.nodes` parses to its content, which is well-formed; `load` on the TEXT
+returns a good state whose roots denote, by variable NAME, what the file says (root 3 = `x ∨ y`);
+the variable is declared under its dotted name at level 1 -/
+theorem C16_dotted_names_load (y : String) (hy : y = "y.end" ∨ y = "y.nodes") :
+    dddmpParseText (dddmpDottedText y).toList = some (dddmpDottedFile y) ∧ (dddmpDottedFile y).WF ∧
+    ∃ m, loadDddmpText (dddmpDottedText y).toList = .ok m ∧ GoodState m (fun _ => 0) ∧
+      DddmpRootsDenoteBy (evalFormat (dddmpDottedFile y)) (dddmpDottedFile y) m ∧
+      (∀ α, evalFormat (dddmpDottedFile y) α 3 = (α "x" || α y)) ∧
+      m.nvars = 2 ∧ m.tbl.vars["x"]? = some 0 ∧ m.tbl.vars[y]? = some 1 := by
+  have key : dddmpParseText (dddmpDottedText y).toList = some (dddmpDottedFile y) ∧
+      (dddmpDottedFile y).WF ∧ DddmpHeaderOK (dddmpDottedFile y) := by
+    rcases hy with rfl | rfl <;> decide +kernel
+  obtain ⟨hp, hwf, hH⟩ := key
+  refine ⟨hp, hwf, ?_⟩
+  obtain ⟨m, h, hg, hr, -, hn, hord⟩ := C16_varinfo3 (dddmpDottedFile y) hwf hH rfl
+    (ov := [.str "x", .str y]) rfl
+  refine ⟨m, by rw [loadDddmpText_of_parse hp]; exact h, hg, hr, ?_, hn, ?_, ?_⟩
+  · intro α
+    exact dddmpDotted_meaning y (by rcases hy with rfl | rfl <;> decide)
+      (by rcases hy with rfl | rfl <;> decide) α
+  · exact (hord 0 (.str "x") rfl).1
+  · exact (hord 1 (.str y) rfl).1
+
+example : ((loadDddmpText (dddmpDottedText "y.end").toList).toOption.map fun m => (m.roots, m.nvars)) =
     some ([3], 2) := by decide +kernel
-example : ((loadDddmpText (dddmpDottedText "y.e").toList).toOption.map fun m => (m.roots, m.nvars)) =
-    some ([3], 2) := by decide +kernel
 
-/-- … with `y.end` the node line of `y.end` ends the body: `AssertionError` (1 line read, 3 announced) … -/
-theorem C16_dotted_end_refused :
-    dddmpErrOf (loadDddmpText (dddmpDottedText "y.end").toList) = some .assertion := by decide +kernel
-
-/-- … with `y.nodes` the `.orderedvarnames` line ends the header: `TypeError` (`len(None)`) -/
-theorem C16_dotted_nodes_refused :
-    dddmpErrOf (loadDddmpText (dddmpDottedText "y.nodes").toList) = some .type := by decide +kernel
-
-/-- the general facts behind the two examples: a line that contains the mark — anywhere — cuts -/
+/-- the facts behind it: the header ends at the first line that STARTS with `.nodes`, the body at
+the first line after it that starts with `.end` -/
 theorem C16_line_dispatch (pre : List (List Char)) (l : List Char) (body : List (List Char))
     (l' : List Char) (post : List (List Char))
     (hpre : ∀ x ∈ pre, hasNodesMark x = false) (hl : hasNodesMark l = true)
@@ -196,15 +229,26 @@ theorem C16_line_dispatch (pre : List (List Char)) (l : List Char) (body : List 
       dddmpBodyLines (pre ++ l :: (body ++ l' :: post)) = body :=
   ⟨dddmpHeaderLines_cut pre l _ hpre hl, dddmpBodyLines_cut pre l body l' post hpre hl hbody hl'⟩
 
-/-- a name that contains `.end` makes every line on which it stands an end mark -/
-theorem C16_name_with_mark (a name b : List Char) :
-    (isInfixC ['.', 'e', 'n', 'd'] name = true → hasEndMark (a ++ name ++ b) = true) ∧
-    (isInfixC ['.', 'n', 'o', 'd', 'e', 's'] name = true → hasNodesMark (a ++ name ++ b) = true) :=
+/-- … and a line that does not start with a dot is never a mark, whatever names stand on it:
+every node line (it starts with the node number), every comment line -/
+theorem C16_no_mark_inside (c : Char) (l : List Char) (h : c ≠ '.') :
+    hasNodesMark (c :: l) = false ∧ hasEndMark (c :: l) = false :=
+  noMark_of_head h
+
+example : hasEndMark "2 y.end 1 1 -1\n".toList = false ∧
+    hasNodesMark ".orderedvarnames x y.nodes\n".toList = false ∧
+    hasNodesMark "# the .nodes follow\n".toList = false ∧
+    hasNodesMark ".nodes\n".toList = true ∧ hasEndMark ".end\n".toList = true := by decide
+
+/-- HISTORICAL (the code before f9d6f33, finding F23): with the substring test a name that
+contains the mark made every line on which it stands a mark -/
+theorem C16_substring_dispatch_cut (a name b : List Char) :
+    (isInfixC ['.', 'e', 'n', 'd'] name = true → isInfixC ['.', 'e', 'n', 'd'] (a ++ name ++ b) = true) ∧
+    (isInfixC ['.', 'n', 'o', 'd', 'e', 's'] name = true →
+      isInfixC ['.', 'n', 'o', 'd', 'e', 's'] (a ++ name ++ b) = true) :=
   ⟨isInfixC_append _ a name b, isInfixC_append _ a name b⟩
 
-example : hasEndMark "2 y.end 1 1 -1\n".toList = true ∧
-    hasNodesMark ".orderedvarnames x y.nodes\n".toList = true ∧
-    hasNodesMark "# the .nodes follow\n".toList = true := by decide
+example : isInfixC ['.', 'e', 'n', 'd'] "2 y.end 1 1 -1\n".toList = true := by decide
 
 /-! ## other refusals / quirks of the text, on the minimal file -/
 
